@@ -61,6 +61,11 @@ func cmdWrapRun(args []string) int {
 		}
 		for i := 0; i < *n; i++ {
 			k := 1 + i%3
+			if i >= *n-600 {
+				// the second time around the slots of the first failed writes: let the sequencer catch up and wait at the next
+				// slot, as it does in a node that is not saturated (a sequencer that lags never looks at a slot before it is refilled)
+				env.WaitCommitted(lastHdr, time.Second)
+			}
 			if i%997 == 0 {
 				// a write that fails: creating an existing key consumes a revision and leaves an invalid event
 				r, err := env.B.Create(ctx, &proto.CreateRequest{Key: env.Keys.Raw(k), Value: []byte("again")})
